@@ -80,6 +80,64 @@ type Sock struct {
 	Handler func(ev Event)
 	// SendFault, if set, is consulted for every Send (under no lock).
 	SendFault func(p spec.Parsed, raw []byte) Fault
+
+	// bridge mode: the client is a real socket of the library talking UDP to
+	// this address; the log and the peer handler work as in memory
+	bridge     *net.UDPConn
+	bridgePeer *net.UDPAddr
+	bridgeMu   sync.Mutex
+}
+
+// NewBridge creates a socket log whose client side is a real UDP endpoint on
+// loopback: datagrams the library sends to BridgeAddr() are logged as Tx and
+// handed to the peer handler; Deliver encodes the frame and sends it to the
+// client (logged as Rx, "taken" at send time: the real hand-over inside the
+// library's receiver cannot be observed). Used for the loopback slices that
+// run the real constructors (knx.NewTunnel, knx.NewGroupTunnel).
+func NewBridge() (*Sock, error) {
+	pc, err := net.ListenUDP("udp4", &net.UDPAddr{IP: net.IPv4(127, 0, 0, 1)})
+	if err != nil {
+		return nil, err
+	}
+	pc.SetReadBuffer(4 << 20)
+	s := &Sock{start: time.Now(), network: "udp", addr: pc.LocalAddr(),
+		inbound: make(chan knxnet.Service), rxq: make(chan rxItem), done: make(chan struct{}), bridge: pc}
+	s.qcond = sync.NewCond(&s.qmu)
+	go s.dispatcher()
+	go func() {
+		buf := make([]byte, 4096)
+		for {
+			n, from, err := pc.ReadFromUDP(buf)
+			if err != nil {
+				return
+			}
+			raw := append([]byte(nil), buf[:n]...)
+			s.bridgeMu.Lock()
+			s.bridgePeer = from
+			s.bridgeMu.Unlock()
+			parsed := spec.Parse(raw)
+			s.mu.Lock()
+			ev := Event{Idx: len(s.log), T: time.Since(s.start), Kind: Tx, Bytes: raw, P: parsed}
+			s.log = append(s.log, ev)
+			s.mu.Unlock()
+			s.qmu.Lock()
+			s.queue = append(s.queue, ev)
+			s.qcond.Broadcast()
+			s.qmu.Unlock()
+		}
+	}()
+	return s, nil
+}
+
+// BridgeAddr is the address the real client has to dial.
+func (s *Sock) BridgeAddr() string { return s.bridge.LocalAddr().String() }
+
+// CloseBridge ends a bridge socket (the harness side).
+func (s *Sock) CloseBridge() {
+	if s.bridge != nil {
+		s.bridge.Close()
+	}
+	s.shutdown()
 }
 
 type rxItem struct {
@@ -282,6 +340,36 @@ func (s *Sock) Closed() (bool, int) {
 // Deliver hands a frame to the client and returns true once the client has
 // taken it (false if the socket closed first).
 func (s *Sock) Deliver(svc knxnet.Service) bool {
+	if s.bridge != nil {
+		p, ok := svc.(knxnet.ServicePackable)
+		if !ok {
+			return false
+		}
+		raw := knxnet.AllocAndPack(p)
+		// log entry and datagram are produced under one lock, so that the log order
+		// of deliveries is the order in which the datagrams reach the socket
+		s.bridgeMu.Lock()
+		defer s.bridgeMu.Unlock()
+		peer := s.bridgePeer
+		if peer == nil {
+			return false
+		}
+		s.mu.Lock()
+		if s.closed {
+			s.mu.Unlock()
+			return false
+		}
+		s.mu.Unlock()
+		if _, err := s.bridge.WriteToUDP(raw, peer); err != nil {
+			return false
+		}
+		s.mu.Lock()
+		ri := len(s.log)
+		now := time.Since(s.start)
+		s.log = append(s.log, Event{Idx: ri, T: now, Kind: Rx, Svc: svc, P: parseSvc(svc), Bytes: raw, Taken: true, TakenAt: ri + 1, TakenT: now})
+		s.mu.Unlock()
+		return true
+	}
 	it := rxItem{svc: svc, done: make(chan bool, 1)}
 	select {
 	case s.rxq <- it:
